@@ -6,7 +6,7 @@ import Py4hwV.Proto.AxiSpec
    r2a  | W,DW,KW | active,tvalid,tdata,sent | start,reset,done,load,reg_in,tready ; …    → per cycle: state(4),wires(11) ; …
    r2aG | …
    oa2r | W       | active,loaded,q,tready | start,reset,done,tvalid,tdata,active',loaded',q',tready' ; …   → verdict
-   or2a | quiet,W,DW,KW | tvalid,tdata,tlast,tkeep,sent,active | start,reset,done,load,reg_in,tready,tvalid',…,active' ; … → verdict
+   or2a | mode(0 literal,1 quiet,2 tolerant),W,DW,KW | tvalid,tdata,tlast,tkeep,sent,active | start,reset,done,load,reg_in,tready,tvalid',…,active' ; … → verdict
    ports | a2r|r2a                          → name:isInput,…
    keep | W                                 → tkeepVal W
    verdict: `ok` | `stop t` | `fail t clause pend` -/
@@ -54,7 +54,7 @@ def handle (line : String) : String :=
       showVerdict (Spec.A2R.check (nat c 0) ⟨nat s 0, nat s 1, nat s 2, nat s 3⟩
         (cy.map fun l => (⟨nat l 0, nat l 1, nat l 2, nat l 3, nat l 4⟩, ⟨nat l 5, nat l 6, nat l 7, nat l 8⟩)))
     | "or2a" =>
-      showVerdict (Spec.R2A.check (nat c 0 != 0) ⟨nat c 1, nat c 2, nat c 3⟩
+      showVerdict (Spec.R2A.check (nat c 0) ⟨nat c 1, nat c 2, nat c 3⟩
         ⟨nat s 0, nat s 1, nat s 2, nat s 3, nat s 4, nat s 5⟩
         (cy.map fun l => (⟨nat l 0, nat l 1, nat l 2, nat l 3, nat l 4, nat l 5⟩,
                           ⟨nat l 6, nat l 7, nat l 8, nat l 9, nat l 10, nat l 11⟩)))
